@@ -129,15 +129,15 @@ structure CfiOut where
 
 def setInsert (l : List String) (s : String) : List String := if l.contains s then l else l ++ [s]
 
-/-- `set_caller_register` (failures are ignored by the CFI evaluator) -/
-def CfiOut.setReg (a : Arch) (o : CfiOut) (name : String) (v : Nat) : CfiOut :=
+/-- `set_caller_register`: `none` for an unknown name or a value the register cannot hold -/
+def CfiOut.setReg (a : Arch) (o : CfiOut) (name : String) (v : Nat) : Option CfiOut :=
   match a.canon name with
-  | none => o
+  | none => none
   | some m =>
-    if v > a.regMax then o
+    if v > a.regMax then none
     else match o.ctx.set a name v with
-      | some c => { ctx := c, valid := setInsert o.valid m }
-      | none => o
+      | some c => some { ctx := c, valid := setInsert o.valid m }
+      | none => none
 
 /-- `clear_caller_register` -/
 def CfiOut.clearReg (a : Arch) (o : CfiOut) (name : String) : CfiOut :=
@@ -176,7 +176,11 @@ def walkCfi (x : CfiIn) (o : CfiOut) (init : String) (adds : List String) : Opti
             let others := (otherRules rs).mergeSort fun p q => strLe p.1 q.1
             some (others.foldl (fun o (n, e) =>
               match evalCfi x (some cfa) e [] with
-              | some v => o.setReg a n v
+              | some v =>
+                -- a value that does not fit is a failed rule too (fix 15b778b): clear, do not forward
+                (match o.setReg a n v with
+                 | some o' => o'
+                 | none => o.clearReg a n)
               | none => o.clearReg a n) o)
     | _, _ => none
 
@@ -200,6 +204,19 @@ def walkFrameCfi (sf : SymFile) (ctbl : List RangeMap.Entry) (modBase : Nat) (x 
         let adds := (rec.adds.mergeSort addLe).takeWhile fun p => p.1 ≤ addr
         walkCfi x o rec.init (adds.map (·.2))
 
+/-- module of the callee's lookup address, its symbol file, `SymbolFile::walk_frame` on a fresh
+    `CfiStackWalker` -/
+def cfiWalk (a : Arch) (w : World) (mtbl : List RangeMap.Entry) (ctbls : List (List RangeMap.Entry))
+    (mem : Mem) (callee : Frame) : Option CfiOut :=
+  match moduleAt mtbl callee.instruction with
+  | none => none
+  | some i =>
+    match w.mods[i]?, (w.syms[i]?).join, ctbls[i]? with
+    | some m, some sf, some ct =>
+      walkFrameCfi sf ct m.base { arch := a, callee := callee.ctx, mem := mem }
+        { ctx := callee.ctx, valid := forwarded a callee.ctx } callee.instruction
+    | _, _, _ => none
+
 /-- `get_caller_by_cfi` of every architecture -/
 def cfiOf (arch : Arch) (w : World) (mtbl : List RangeMap.Entry) (ctbls : List (List RangeMap.Entry))
     (mask : Nat) (mem : Mem) (callee : Frame) (_grand : Option Frame) : Option Ctx :=
@@ -212,26 +229,24 @@ def cfiOf (arch : Arch) (w : World) (mtbl : List RangeMap.Entry) (ctbls : List (
     | .arm => c.has a "r13"
     | _ => c.has a "sp"
   if !spOk then none
-  else match moduleAt mtbl callee.instruction with
+  else match cfiWalk a w mtbl ctbls mem callee with
     | none => none
-    | some i =>
-      match w.mods[i]?, (w.syms[i]?).join, ctbls[i]? with
-      | some m, some sf, some ct =>
-        let x : CfiIn := { arch := a, callee := c, mem := mem }
-        let o : CfiOut := { ctx := c, valid := forwarded a c }
-        match walkFrameCfi sf ct m.base x o callee.instruction with
-        | none => none
-        | some o =>
-          let r : Ctx := { o.ctx with valid := some o.valid }
-          match a with
-          | .arm64 | .arm64old =>
-            -- ptr-auth stripping of pc, and of lr / fp when they are valid
-            let r := { r with ip := r.ip &&& mask }
-            let r := if r.has a "x30" then (r.set a "x30" (r.raw a "x30" &&& mask)).getD r else r
-            let r := if r.has a "x29" then (r.set a "x29" (r.raw a "x29" &&& mask)).getD r else r
-            some r
-          | _ => some r
-      | _, _, _ => none
+    | some o =>
+      let r : Ctx := { o.ctx with valid := some o.valid }
+      match a with
+      | .arm64 | .arm64old =>
+        -- ptr-auth stripping of pc, and of lr / fp when they are valid
+        let r := { r with ip := r.ip &&& mask }
+        let r := if r.has a "x30" then (r.set a "x30" (r.raw a "x30" &&& mask)).getD r else r
+        let r := if r.has a "x29" then (r.set a "x29" (r.raw a "x29" &&& mask)).getD r else r
+        some r
+      | _ => some r
+
+/-- the CFI range table of every module's symbol file (by module position) -/
+def cfiTables (w : World) : List (List RangeMap.Entry) :=
+  w.syms.map fun s => match s with
+    | some sf => cfiTable sf
+    | none => []
 
 /-- The environment of a concrete walk: modules, symbol records, stack memory. -/
 def mkEnv (arch : Arch) (os : Os) (w : World) (mem : Mem) : Env :=
@@ -239,9 +254,7 @@ def mkEnv (arch : Arch) (os : Os) (w : World) (mem : Mem) : Env :=
   let ftbls := w.syms.map fun s => match s with
     | some sf => funcTable sf
     | none => []
-  let ctbls := w.syms.map fun s => match s with
-    | some sf => cfiTable sf
-    | none => []
+  let ctbls := cfiTables w
   let bits := if arch = .arm64old then Consts.arm64old_ptrauth_bits else Consts.arm64_ptrauth_bits
   let mask := ptrAuthMask w mtbl bits
   { arch := arch, os := os,
